@@ -328,6 +328,8 @@ type Scenario struct {
 	IdKey string `json:"id_key,omitempty"`
 	// reader-reuse scenario: the plan of its blocks (the documents are regenerated from it)
 	Plan []blockPlan `json:"plan,omitempty"`
+	// wide-event scenario (wide.go): GOMAXPROCS, number of columns, per block the absent columns
+	Wide *widePlan `json:"wide,omitempty"`
 }
 
 // ---------- reader-reuse scenarios ----------
